@@ -1,13 +1,13 @@
 (* Entry points of the extracted runner: [dispatch] evaluates the model on a
    case, [judge] compares with what the implementation did. *)
-From WP Require Import Base.Prelude Run.Sx Run.RunCbor Run.RunDet.
+From WP Require Import Base.Prelude Run.Sx Run.RunCbor Run.RunDet Run.RunMice.
 Open Scope N_scope.
 
 Definition first_some {A} (l : list (option A)) : option A :=
   fold_right (fun o acc => match o with Some a => Some a | None => acc end) None l.
 
 Definition dispatch (op : bytes) (args : list sx) : sx :=
-  match first_some [dispatch_cbor op args; dispatch_det op args] with
+  match first_some [dispatch_cbor op args; dispatch_det op args; dispatch_mice op args] with
   | Some r => r
   | None => SL [sym "unknown_op"]
   end.
@@ -15,4 +15,7 @@ Definition dispatch (op : bytes) (args : list sx) : sx :=
 (* verdict: (ok) or (diff expected) *)
 Definition judge (op : bytes) (args : list sx) (impl : sx) : sx :=
   let m := dispatch op args in
-  if sx_eqb m impl then SL [sym "ok"] else SL [sym "diff"; m].
+  let same :=
+    if bytes_eqb op (s2b "mi_dec") then judge_mi_dec args impl
+    else sx_eqb m impl in
+  if same then SL [sym "ok"] else SL [sym "diff"; m].
